@@ -299,3 +299,46 @@ Theorem C01_parse_inline_never_raises :
   forall src env e, parse_inline cfg rf cf lt src env <> Raise e.
 Proof. exact parse_inline_no_raise. Qed.
 Print Assumptions C01_parse_inline_never_raises.
+
+(* ---- the inline tokenizer makes progress ------------------------------------------------------ *)
+From MD Require Import Lemmas.InlineProgress.
+
+(* a rule that succeeds moves the position forward, one that fails leaves it where it was - for
+   every rule list, at every recursion depth (so the tokenizer loop cannot spin) *)
+Theorem C01_inline_rule_progress :
+  forall cfg rf cf lt, ic_linkify cfg = false -> order_ok (ic_rules2 cfg) = true ->
+  forall d names st silent bump ok st', PI st -> i_pos st < i_posMax st ->
+  first_rule cfg rf cf lt (ifs cfg rf cf lt d) names st silent bump = Ok (ok, st') ->
+  if ok then i_pos st < i_pos st' else i_pos st' = i_pos st.
+Proof. exact first_rule_progress. Qed.
+Print Assumptions C01_inline_rule_progress.
+
+(* the tokenizer loop and the link-label loop: above posMax - pos the answer does not depend on the
+   fuel; the fuel they are called with (len src + 2) lies above that *)
+Theorem C01_tokenizer_loop_fuel_independent :
+  forall cfg rf cf lt, ic_linkify cfg = false -> order_ok (ic_rules2 cfg) = true ->
+  forall d f1 f2 st, PI st ->
+  (Z.to_nat (i_posMax st - i_pos st) < f1)%nat -> (Z.to_nat (i_posMax st - i_pos st) < f2)%nat ->
+  tok_while cfg rf cf lt f1 (ifs cfg rf cf lt d) st (i_posMax st) false = tok_while cfg rf cf lt f2 (ifs cfg rf cf lt d) st (i_posMax st) false.
+Proof. exact tok_while_fuel_any_depth. Qed.
+Print Assumptions C01_tokenizer_loop_fuel_independent.
+
+Theorem C01_label_loop_fuel_independent :
+  forall cfg rf cf lt, ic_linkify cfg = false -> order_ok (ic_rules2 cfg) = true ->
+  forall d f1 f2 st level dn oldPos, PI st ->
+  (Z.to_nat (i_posMax st - i_pos st) < f1)%nat -> (Z.to_nat (i_posMax st - i_pos st) < f2)%nat ->
+  label_loop (ifs cfg rf cf lt d) f1 st level dn oldPos = label_loop (ifs cfg rf cf lt d) f2 st level dn oldPos.
+Proof. exact label_loop_fuel_any_depth. Qed.
+Print Assumptions C01_label_loop_fuel_independent.
+
+Theorem C01_tokenize_fuel_above_bound :
+  forall st, PI st -> (Z.to_nat (i_posMax st - i_pos st) < S (S (length (i_src st))))%nat.
+Proof. exact tokenize_fuel_above. Qed.
+Print Assumptions C01_tokenize_fuel_above_bound.
+
+(* a regular expression that cannot match the empty string (a conservative syntactic test) moves the
+   cursor; the three expressions the inline rules advance by pass the test *)
+Theorem C01_regex_nonempty_moves :
+  forall r st e, nonempty r = true -> match_at r st = Some e -> m_pos st < m_pos e.
+Proof. exact match_at_gt. Qed.
+Print Assumptions C01_regex_nonempty_moves.
